@@ -308,6 +308,11 @@ fn thread_of(st: &mut State) -> usize {
 }
 
 fn track_locks(st: &mut State, t: usize, name: &str, detail: &str) {
+    // a commit that fails (e.g. `commit_changes` refusing a changeset for a dropped table) never
+    // reaches `vm.committed`: any other event of the holder shows the manifest lock is free again
+    if st.manifest_holder == Some(t) && !matches!(name, "vm.commitA" | "vm.append" | "vm.commit.begin") {
+        st.manifest_holder = None;
+    }
     match name {
         "vm.committed" => {
             if st.manifest_holder == Some(t) {
@@ -367,6 +372,10 @@ fn sync_hook(name: &str, detail: &str) -> Action {
         let (actor, th) = (st.threads[t].actor, st.threads[t].idx);
         st.events.push(Ev { actor, th, name: name.into(), detail: sanitize(detail) });
         st.progress += 1;
+        if st.manifest_holder == Some(t) {
+            // (see track_locks) a pin/unpin of the holder: its commit is over
+            st.manifest_holder = None;
+        }
     });
     Action::Continue
 }
